@@ -1025,6 +1025,33 @@ func callBuiltin(caller *frame, callpos token.Pos, fn *ssa.Builtin, args []value
 		args[0].(*omap).delete(caller.i.path, args[1])
 		return nil
 
+	case "clear": // clear(map) or clear([]T)
+		switch x := args[0].(type) {
+		case *omap:
+			if x != nil {
+				for x.len() > 0 {
+					x.delete(caller.i.path, x.keys[x.len()-1])
+				}
+			}
+			return nil
+		case []value:
+			if len(x) > 0 {
+				var et types.Type
+				if sig, ok := fn.Type().(*types.Signature); ok && sig.Params().Len() > 0 {
+					if st, ok := sig.Params().At(0).Type().Underlying().(*types.Slice); ok {
+						et = st.Elem()
+					}
+				}
+				if et == nil {
+					panic(fmt.Sprintf("clear: unknown element type in %s", caller.fn))
+				}
+				for k := range x {
+					x[k] = zero(et)
+				}
+			}
+			return nil
+		}
+
 	case "print", "println": // print(any, ...)
 		// Go's built-in print writes to standard error: from library code
 		// that is an effect C10 excludes
